@@ -116,6 +116,14 @@ impl Monitor for C12 {
                 pm::ExecuteMsg::Swap { ask_asset_denom, pool_identifier, .. } if funds.len() == 1 => {
                     let post_snap = w.snapshot();
                     w.restore(s.pre_snap);
+                    // now and then the fork first switches the pool's deposits and/or withdrawals
+                    // off (swaps stay as they are): quotes and swaps must not care
+                    if s.idx % 6 == 1 && s.pre.pools.contains_key(pool_identifier) {
+                        let admin = w.owner.clone();
+                        let (d, wd) = [(Some(false), None), (None, Some(false)), (Some(false), Some(false))][(s.idx / 6) % 3];
+                        let t = w.apply(&crate::wpool::toggle_op(&admin, pool_identifier, None, d, wd));
+                        rep.count("sim_eq_swap", if t.is_ok() { "fork_with_deposits_or_withdrawals_switched_off" } else { "fork_switch_refused" });
+                    }
                     let sim: Result<pm::SimulationResponse, String> = w.query(
                         &w.pm,
                         &pm::QueryMsg::Simulation {
